@@ -646,7 +646,13 @@ impl<Ix: SIx> Driver<Ix> {
                     };
                     rs("ok")
                 } else {
-                    onm!(&mut self.obj, g => match guard(|| g.extend_with_edges(it)) { Ok(()) => rs("ok"), Err(()) => rpanic() })
+                    // the IntoWeightedEdge forms: owned triple, triple with a borrowed weight, reference to a triple
+                    let owned: Vec<(petgraph::graph::NodeIndex<Ix>, petgraph::graph::NodeIndex<Ix>, i32)> = it.collect();
+                    match self.serial % 3 {
+                        0 => onm!(&mut self.obj, g => match guard(|| g.extend_with_edges(owned.iter().cloned())) { Ok(()) => rs("ok"), Err(()) => rpanic() }),
+                        1 => onm!(&mut self.obj, g => match guard(|| g.extend_with_edges(owned.iter().map(|t| (t.0, t.1, &t.2)))) { Ok(()) => rs("ok"), Err(()) => rpanic() }),
+                        _ => onm!(&mut self.obj, g => match guard(|| g.extend_with_edges(owned.iter())) { Ok(()) => rs("ok"), Err(()) => rpanic() }),
+                    }
                 }
             }
             "map" | "filter_map" => {
